@@ -104,6 +104,22 @@ func exactWrapper(c *chk.Ctx, h *ssa.Function, table *types.Var) (tableWrapper, 
 		if w.keyIdx < 0 {
 			return none, false
 		}
+		// "has": m[k] != nil
+		isHas := len(ir.Returns(h)) > 0
+		for _, r := range ir.Returns(h) {
+			if len(r.Results) != 1 {
+				isHas = false
+				continue
+			}
+			x, eq, ok := ir.NilCompare(r.Results[0])
+			if !ok || eq || x != w.raw.(ssa.Value) {
+				isHas = false
+			}
+		}
+		if isHas {
+			w.kind = "has"
+			return w, true
+		}
 		for _, r := range ir.Returns(h) {
 			if len(r.Results) != 1 || r.Results[0] != w.raw.(ssa.Value) {
 				return none, false
@@ -112,6 +128,22 @@ func exactWrapper(c *chk.Ctx, h *ssa.Function, table *types.Var) (tableWrapper, 
 	case "lookupok":
 		if w.keyIdx < 0 {
 			return none, false
+		}
+		// "has": only the ok flag is returned
+		isHas := true
+		for _, r := range ir.Returns(h) {
+			if len(r.Results) != 1 {
+				isHas = false
+				continue
+			}
+			e, ok := r.Results[0].(*ssa.Extract)
+			if !ok || e.Tuple != w.raw.(ssa.Value) || e.Index != 1 {
+				isHas = false
+			}
+		}
+		if isHas && len(ir.Returns(h)) > 0 {
+			w.kind = "has"
+			return w, true
 		}
 		for _, r := range ir.Returns(h) {
 			if len(r.Results) != 2 {
@@ -173,7 +205,7 @@ func tableLookups(c *chk.Ctx, table *types.Var) []vLookup {
 				}
 				out = append(out, vLookup{x, f, x.Index, x.CommaOk})
 			case ssa.CallInstruction:
-				if w, ok := wrapperCall(c, x, table, "lookup", "lookupok"); ok && w.keyIdx < len(x.Common().Args) {
+				if w, ok := wrapperCall(c, x, table, "lookup", "lookupok", "has"); ok && w.keyIdx < len(x.Common().Args) {
 					out = append(out, vLookup{ins, f, x.Common().Args[w.keyIdx], w.kind == "lookupok"})
 				}
 			}
